@@ -37,12 +37,33 @@ class ProofCache():
         # Possible error
         self.error = None
 
+        # Modification times of the files the cache was computed from
+        self.stamp = None
+
+    def get_stamp(self, data):
+        """Modification times of the theory file and of the files it imports."""
+        try:
+            names = basic.get_import_order([data['theory_name']], data['username'])
+            return tuple((name, os.path.getmtime(basic.user_file(name, data['username']))) for name in names)
+        except Exception:
+            return None
+
     def check_cache(self, data):
         return self.username == data['username'] and self.theory_name == data['theory_name'] and \
             self.thm_name == data['thm_name'] and self.vars == data['vars'] and \
-            self.prop == data['prop'] and self.steps == data['steps']
+            self.prop == data['prop'] and self.steps == data['steps'] and \
+            self.stamp is not None and self.stamp == self.get_stamp(data)
 
     def create_cache(self, data):
+        # Forget the previous proof first: if loading fails, the cache must not answer for the new key
+        self.__init__()
+        try:
+            self.fill_cache(data)
+        except Exception:
+            self.__init__()
+            raise
+
+    def fill_cache(self, data):
         self.username = data['username']
         self.theory_name = data['theory_name']
         self.thm_name = data['thm_name']
@@ -72,6 +93,8 @@ class ProofCache():
                 'err_str': str(e),
                 'trace': traceback2.format_exc()
             }
+
+        self.stamp = self.get_stamp(data)
 
     def insert_step(self, index, step):
         self.steps = self.steps[:index] + [step] + self.steps[index:]
